@@ -16,8 +16,8 @@ CONSTANTS MaxLen,        \* steps per behaviour
           Exports,       \* BOOLEAN: include export/import steps (C19)
           Locals         \* BOOLEAN: include replica-local steps (C01)
 
-VARIABLES hist, nv, nc, nl, np, blocks, dels, liq, vfund, daoh
-vars == <<hist, nv, nc, nl, np, blocks, dels, liq, vfund, daoh>>
+VARIABLES hist, nv, nc, nl, np, blocks, dels, liq, vfund, daoh, agr, fgr
+vars == <<hist, nv, nc, nl, np, blocks, dels, liq, vfund, daoh, agr, fgr>>
 
 Accts == {"a1", "a2", "a3", "a4", "a5", "a6"}
 Amts  == {"1", "1000", "1000000000000000000", "250000000000000000000", "3000000000000000000000"}
@@ -56,12 +56,16 @@ Init == /\ hist = Prologue
         /\ dels = {<<"v1", 0>>, <<"v2", 1>>, <<"v3", 2>>} \cup {<<"a6", 0>>}  \* (delegator, validator index) pairs believed to exist
         /\ vfund = {<<"vx1", "a1">>, <<"vx2", "a2">>}     \* (vesting account, funder) pairs
         /\ daoh = {"a5"}                                  \* accounts believed to hold DAO shares
+        /\ agr = {} /\ fgr = {}
         /\ liq = {<<0, "a1">>, <<2, "a3">>}                                            \* (liquid denom id, holder) pairs believed to exist
 
 \* an existing delegation most of the time, an arbitrary pair otherwise
 Del(h) == IF Pick(1..5, h) # 1 THEN Pick(dels, h) ELSE <<Pick(Accts, h), Pick(0..2, h)>>
 Vf(h)  == IF vfund # {} /\ Pick(1..5, h) # 1 THEN Pick(vfund, h) ELSE <<VestName(1), Pick(Accts, h)>>
 DaoH(h) == IF daoh # {} /\ Pick(1..5, h) # 1 THEN Pick(daoh, h) ELSE Pick(Accts, h)
+\* (granter, grantee, message kind) of an authorization / (granter, grantee) of a fee allowance believed to exist
+Ag(h) == IF agr # {} /\ Pick(1..5, h) # 1 THEN Pick(agr, h) ELSE <<Pick(Accts, h), Pick(Accts, h), Pick({"send", "delegate", "fund"}, h)>>
+Fg(h) == IF fgr # {} /\ Pick(1..5, h) # 1 THEN Pick(fgr, h) ELSE <<Pick(Accts, h), Pick(Accts, h)>>
 Liq(h) == IF liq # {} /\ Pick(1..5, h) # 1 THEN Pick(liq, h) ELSE <<Pick(0..1, h), Pick(Accts, h)>>
 
 \* one transaction; `slot` distinguishes the draws inside one block
@@ -109,9 +113,23 @@ TxOfKind(h, k, f, d, q, vf) ==
                     amt |-> Pick({"1000000000000000000", "250000000000000000000"}, h), lock |-> Pick({5, 300}, h), vest |-> Pick({1, 40}, h),
                     merge |-> FALSE, stake |-> (Pick(1..3, h) # 1), val |-> Pick(0..2, h), startOff |-> Pick({-100, -100, 0}, h)]
       [] k = 27 -> [k |-> "convert_coin", from |-> q[2], to |-> Pick(Accts, h), id |-> q[1], amt |-> Pick({"1000", "400000000000000000000"}, h)]
+      \* authz, fee grants, re-bonding, deposits, conversion back, ICS-20 (message and precompile) over the loopback channel
+      [] k = 36 -> [k |-> "convert_erc20", from |-> q[2], to |-> Pick(Accts, h), id |-> q[1], amt |-> Pick({"1000", "500", "400000000000000000000"}, h)]
+      [] k = 37 -> [k |-> "authz_grant", from |-> f, to |-> Pick(Accts \ {f}, h), msg |-> Pick({"send", "delegate", "fund"}, h),
+                    amt |-> Pick({"1000", "250000000000000000000"}, h), secs |-> Pick({3, 1000, 1000}, h)]
+      [] k = 38 -> LET g == Ag(h) IN [k |-> "authz_exec", from |-> g[2], granter |-> g[1], msg |-> g[3], to |-> Pick(Accts, h), val |-> Pick(0..2, h),
+                                      amt |-> Pick({"1", "600", "1000", "250000000000000000000"}, h)]
+      [] k = 39 -> LET g == Ag(h) IN [k |-> "authz_revoke", from |-> g[1], to |-> g[2], msg |-> g[3]]
+      [] k = 40 -> [k |-> "feegrant", from |-> f, to |-> Pick(Accts \ {f}, h), amt |-> Pick({"100000000000000", "900000000000000000"}, h)]
+      [] k = 41 -> LET g == Fg(h) IN [k |-> "send_feegranted", from |-> g[2], granter |-> g[1], to |-> Pick(Accts, h), amt |-> Pick(Amts, h)]
+      [] k = 42 -> [k |-> "cancel_unbond", from |-> d[1], val |-> d[2], amt |-> Pick({"1", "all", "250000000000000000000"}, h)]
+      [] k = 43 -> [k |-> "gov_deposit", from |-> f, id |-> Pick(1..(IF np > 0 THEN np ELSE 1), h), amt |-> Pick({"10", "5000"}, h)]
+      [] k = 44 -> [k |-> "ibc_transfer", from |-> f, amt |-> Pick(Amts, h)]
+      [] k = 45 -> [k |-> "pc_ibc_transfer", from |-> f, amt |-> Pick(Amts, h)]
 
-KindOf(k0) == IF k0 <= 35 THEN k0 ELSE IF k0 <= 37 THEN 18 ELSE IF k0 <= 39 THEN 19 ELSE IF k0 = 40 THEN 17 ELSE IF k0 = 41 THEN 15 ELSE 8
-RandTx(h, slot) == TxOfKind(h, KindOf(Pick(1..43, h)), Pick(Accts, h), Del(h), Liq(h), Vf(h))
+KindOf(k0) == IF k0 <= 45 THEN k0 ELSE IF k0 <= 47 THEN 18 ELSE IF k0 <= 49 THEN 19 ELSE IF k0 = 50 THEN 17 ELSE IF k0 = 51 THEN 15
+              ELSE IF k0 <= 53 THEN 38 ELSE IF k0 = 54 THEN 41 ELSE IF k0 = 55 THEN 42 ELSE 8
+RandTx(h, slot) == TxOfKind(h, KindOf(Pick(1..56, h)), Pick(Accts, h), Del(h), Liq(h), Vf(h))
 
 NewVest(txs)   == Cardinality({j \in DOMAIN txs : txs[j].k = "vest_create" /\ txs[j].merge = FALSE})
 Count(txs, kk) == Cardinality({j \in DOMAIN txs : txs[j].k = kk})
@@ -153,10 +171,12 @@ Block ==
        /\ vfund' = vfund \cup {<<one[j].to, one[j].from>> : j \in {x \in DOMAIN one : one[x].k = "vest_create" /\ one[x].merge = FALSE}}
        /\ daoh' = daoh \cup {one[j].from : j \in {x \in DOMAIN one : one[x].k \in {"dao_fund", "two_msgs"}}}
                         \cup {one[j].to : j \in {x \in DOMAIN one : one[x].k \in {"dao_xfer", "dao_xfer_ratio"}}}
+       /\ agr' = agr \cup {<<one[j].from, one[j].to, one[j].msg>> : j \in {x \in DOMAIN one : one[x].k = "authz_grant"}}
+       /\ fgr' = fgr \cup {<<one[j].from, one[j].to>> : j \in {x \in DOMAIN one : one[x].k = "feegrant"}}
        /\ liq' = liq \cup {<<nl + Cardinality({y \in 1..(j-1) : one[y].k = "liquidate"}), one[j].to>> :
                               j \in {x \in DOMAIN one : one[x].k = "liquidate"}}
 
-Other(e) == hist' = Append(hist, e) /\ UNCHANGED <<nv, nc, nl, np, blocks, dels, liq, vfund, daoh>>
+Other(e) == hist' = Append(hist, e) /\ UNCHANGED <<nv, nc, nl, np, blocks, dels, liq, vfund, daoh, agr, fgr>>
 
 SimNext ==
     /\ Len(hist) < MaxLen
